@@ -72,8 +72,10 @@ inline void fault(const char *kind, const char *what) {
     if (once.fetch_add(1) != 0) { for (;;) pause(); }                           // another thread is already reporting
     if (pre_fault()) { void (*f)() = pre_fault(); pre_fault() = nullptr; f(); }
     Trace &t = T();
-    if (t.f) { fprintf(t.f, "{\"e\":\"Fault\",\"kind\":\"%s\",\"what\":%s}\n", kind, jstr(what ? what : "").c_str()); fflush(t.f); }
-    fprintf(stderr, "FAULT kind=%s what=%s\n", kind, what ? what : "");
+    std::string line = std::string("{\"e\":\"Fault\",\"kind\":\"") + kind + "\",\"what\":" + jstr(what ? what : "") + "}\n";
+    if (t.f) { fflush(t.f); ssize_t w = write(fileno(t.f), line.data(), line.size()); (void)w; }
+    std::string msg = std::string("FAULT kind=") + kind + " what=" + (what ? what : "") + "\n";
+    ssize_t w2 = write(2, msg.data(), msg.size()); (void)w2;
     _exit(97);
 }
 inline void on_terminate() {
